@@ -30,9 +30,16 @@ package listMap
 //@   loop 1 invariant 0 <= rangeidx && rangeidx <= len(l) && (forall j in 0..rangeidx :: l[j].key != key) && (forall j in 0..len(l) :: l[j] == old(l[j]))
 
 // Iter calls yield for the entries in slice order and stops when yield returns false
+// The iteration protocol (C05: a callback that is called again after it returned false panics inside a range-over-func
+// loop): `yields yield` generates the obligation protocol:yield-not-called-after-stop. What yield itself does is the
+// caller's business: the frame is what Iter does besides calling it (trusted, the calls of yield are not part of it).
 //@ func (l ListMap[V]) Iter
+//@   property C05
+//@   yields yield
 //@   iterates yield count len(l) args l[cbidx].key, l[cbidx].value
 //@   assigns nothing
+//@   option frame-trusted
+//@   loop 1 invariant !yieldstopped() && !yieldbad()
 
 //@ func New
 //@   ensures[empty] len(result) == 0 && fresh(result)
